@@ -332,3 +332,16 @@ add('C18', 'guards-rewritten-equivalently', EVP, "            if level_minus_ip 
 add('C18', 'last-transition-le', EVP, "            if letter_level[0] == level:", "            if letter_level[0] <= level:", 'fire', 'C18.R1b')
 add('C18', 'probability-without-N', OFO, "        pcfg_omen_prob[level] = percentage_cracked/keyspace", "        pcfg_omen_prob[level] = num_instances/keyspace", 'fire', 'C18.R2')
 add('C18', 'ip-writer-skips-unseen', OFO, '            for key, data in omen_trainer.grammar.items():\n                file.write(str(data[\'ip_level\'])+ "\\t" + key + "\\n")', '            for key, data in omen_trainer.grammar.items():\n                if data[\'ip_count\'] == 0:\n                    continue\n                file.write(str(data[\'ip_level\'])+ "\\t" + key + "\\n")', 'fire', 'C18.R3')
+
+# ---- C13 ------------------------------------------------------------------------------------------------------
+SPS = 'lib_scorer/pcfg_password_scorer.py'
+add('C13', 'other-before-digit', SPS, [("        found_digit_strings = digit_detection(section_list)\n", ""), ("        found_other_strings = other_detection(section_list)\n", "        found_other_strings = other_detection(section_list)\n        found_digit_strings = digit_detection(section_list)\n")], None, 'fire', 'C13.R1')
+add('C13', 'year-and-context-swapped (still a valid segmentation order)', SPS, [("        found_years = year_detection(section_list)\n", ""), ("        found_context_sensitive_strings = context_sensitive_detection(section_list)\n", "        found_context_sensitive_strings = context_sensitive_detection(section_list)\n        found_years = year_detection(section_list)\n")], None, 'silent')
+add('C13', 'early-return-dropped', SPS, "        if category in ['e', 'w']:\n            return (password, category, 0, omen_score)\n", "", 'fire', 'C13.R2')
+add('C13', 'digits-looked-up-in-other-table', SPS, "                cur_prob *= self.count_digits[len(item)][item]", "                cur_prob *= self.count_other[len(item)][item]", 'fire', 'C13.R3')
+add('C13', 'mask-factor-dropped', SPS, "            for item in found_mask_list:\n                cur_prob *= self.count_alpha_masks[len(item)][item]\n", "", 'fire', 'C13.R3')
+add('C13', 'keyboard-lookup-lowercased', SPS, "cur_prob *= self.count_keyboard[len(item)][item]", "cur_prob *= self.count_keyboard[len(item)][item.lower()]", 'fire', 'C13.R3')
+add('C13', 'keyerror-gives-tiny-probability', SPS, "        except KeyError:\n            cur_prob = 0", "        except KeyError:\n            cur_prob = 1e-30", 'fire', 'C13.R3')
+add('C13', 'parse-trains-detector', SPS, "        omen_score = self.omen.parse(password)\n", "        omen_score = self.omen.parse(password)\n        self.multiword_detector.train(password)\n", 'fire', 'C13.R4')
+add('C13', 'parse-remembers-last', SPS, "        omen_score = self.omen.parse(password)\n", "        omen_score = self.omen.parse(password)\n        self.last_password = password\n", 'fire', 'C13.R4')
+add('C13', 'tables-swapped-at-load', SGIOF, [("_load_from_multiple_files(grammar.count_digits, config['BASE_D']", "_load_from_multiple_files(grammar.count_other, config['BASE_D']"), ("_load_from_multiple_files(grammar.count_other, config['BASE_O']", "_load_from_multiple_files(grammar.count_digits, config['BASE_O']")], None, 'fire', 'C13.R5')
